@@ -533,35 +533,44 @@ def fjoin (dir : Path) (name : Str) : Path := (joinElems dir.reverse (splitOn 47
 def dirNonEmpty (fs : FS) (dir : Path) : Bool :=
   fs.any fun e => e.1.length == dir.length + 1 && dir.isPrefixOf e.1
 
+/-- the copy step of one entry: `io.Copy(w, &io.LimitedReader{R: r, N: declared+1})`, then
+`lr.N <= 0` → error.  Returns the bytes that reached the file and whether the entry succeeded. -/
+def copyEntry (e : ZEnt) : List Nat × Bool :=
+  let n : Int := toInt64 e.declared + 1                 -- LimitedReader.N
+  let want := e.data.take n.toNat
+  match e.wfail with
+  | some k => if k < want.length then (want.take k, false) else
+      (want, !(decide ((e.data.length : Int) < n) && e.streamErr) && decide (n - (want.length : Int) > 0))
+  | none =>
+      (want, !(decide ((e.data.length : Int) < n) && e.streamErr) && decide (n - (want.length : Int) > 0))
+
+/-- one iteration of the extraction loop of Unzip (for an entry that is not skipped) -/
+def unzipOne (fs : FS) (dir : Path) (e : ZEnt) : FS × Bool :=
+  let dst := fjoin dir e.name
+  match mkdirAll fs dst.dropLast with
+  | (fs1, false) => (fs1, false)
+  | (fs1, true) =>
+    match fs1.get dst with
+    | some _ => (fs1, false)                                  -- O_EXCL
+    | none =>
+      let fs2 := fs1.set dst (.file [])
+      if e.openErr then (fs2, false)
+      else
+        let (w, ok) := copyEntry e
+        (fs2.set dst (.file w), ok)
+
+/-- `name == "" || strings.HasSuffix(name, "/")` -/
+def skipEntry (e : ZEnt) : Bool := e.name.isEmpty || e.name.getLast? == some 47
+
 /-- the extraction loop of Unzip -/
 def unzipEntries (fs : FS) (dir : Path) : List ZEnt → FS × Bool
   | [] => (fs, true)
   | e :: es =>
-    if e.name.isEmpty || e.name.getLast? == some 47 then unzipEntries fs dir es
+    if skipEntry e then unzipEntries fs dir es
     else
-      let dst := fjoin dir e.name
-      match mkdirAll fs dst.dropLast with
+      match unzipOne fs dir e with
       | (fs1, false) => (fs1, false)
-      | (fs1, true) =>
-        match fs1.get dst with
-        | some _ => (fs1, false)                                  -- O_EXCL
-        | none =>
-          let fs2 := fs1.set dst (.file [])
-          if e.openErr then (fs2, false)
-          else
-            let n : Int := toInt64 e.declared + 1                 -- LimitedReader.N
-            let want := e.data.take n.toNat
-            match e.wfail with
-            | some k => if k < want.length then (fs2.set dst (.file (want.take k)), false) else
-                let fs3 := fs2.set dst (.file want)
-                if decide ((e.data.length : Int) < n) && e.streamErr then (fs3, false)
-                else if n - want.length ≤ 0 then (fs3, false)
-                else unzipEntries fs3 dir es
-            | none =>
-              let fs3 := fs2.set dst (.file want)
-              if decide ((e.data.length : Int) < n) && e.streamErr then (fs3, false)
-              else if n - want.length ≤ 0 then (fs3, false)     -- lr.N <= 0
-              else unzipEntries fs3 dir es
+      | (fs1, true) => unzipEntries fs1 dir es
 
 /-- Unzip(dir, m, zipFile) once the zip file was opened and parsed -/
 def unzip (U : Uni) (fs : FS) (dir : Path) (zipSize : Nat) (z : List ZEnt) : FS × Bool :=
